@@ -160,7 +160,7 @@ Proof.
     unfold bj_pair. simpl b_id. simpl b_stat. simpl b_reason.
     unfold apply_pairs, apply_pair. simpl fold_left. simpl fst. simpl snd.
     destruct (has_key (lf_text fi) st); [|reflexivity].
-    unfold lsf_effective.
+    rewrite <- (lsf_effective_row_code (lf_text fs_) (lf_text fr)). unfold lsf_effective.
     destruct (str_eqb (lf_text fs_) lsf_exit_trigger) eqn:E; [|reflexivity].
     destruct lsf_exit_rules; reflexivity.
   - change (forallb wf_lfield fs && (List.length fs <? 4) = true) in Hwf.
@@ -209,8 +209,9 @@ Proof.
       { destruct bj_nojob_empty_dict; [reflexivity | apply init_all_none]. }
       rewrite A. reflexivity.
     + rewrite <- PI. rewrite (parses_zero _ _ _ bj_rc_map_ok P). simpl.
-      apply (answers_ok_apply lsf_state lsf_alive lsf_success _ jl
-               lsf_alive_not_terminal lsf_only_success).
+      rewrite (answers_ok_apply lsf_state lsf_alive lsf_success _ jl
+                 lsf_alive_not_terminal lsf_only_success).
+      apply expected_ok_apply. apply assoc_ok_sound. vm_compute. reflexivity.
   - rewrite <- PI. rewrite JS_eqb_refl, init_all_none. simpl.
     apply (answers_ok_apply lsf_state lsf_alive lsf_success [] jl
              lsf_alive_not_terminal lsf_only_success).
